@@ -63,11 +63,91 @@ fn check_epsilon() {
     println!("powi(10, n) table agrees with the native libm for all modelled n");
 }
 
+fn bits(s: &str) -> f64 {
+    f64::from_bits(u64::from_str_radix(s.trim_start_matches("0x"), 16).expect("hex bits"))
+}
+
+fn eval(kernel: &str, a: &[f64]) -> u64 {
+    match kernel {
+        "fuzzy_round" => v::fuzzy_round(a[0]).to_bits(),
+        "fuzzy_equals" => v::fuzzy_equals(a[0], a[1]) as u64,
+        "fuzzy_less_than" => v::fuzzy_less_than(a[0], a[1]) as u64,
+        "fuzzy_less_than_or_equals" => v::fuzzy_less_than_or_equals(a[0], a[1]) as u64,
+        "modulo" => v::modulo(a[0], a[1]).to_bits(),
+        "hue_to_rgb" => v::hue_to_rgb(a[0], a[1], a[2]).to_bits(),
+        "fuzzy_as_int" => match v::fuzzy_as_int(a[0]) { Some(i) => i as u64, None => 0x8000_0000_0000_0001 },
+        _ => { eprintln!("unknown kernel {}", kernel); std::process::exit(2) }
+    }
+}
+
+/// stdin: lines `kernel hexbits...`; stdout: one hex result per line (translator validation, engine F)
+fn eval_kernels() {
+    use std::io::BufRead;
+    let stdin = std::io::stdin();
+    let mut out = String::new();
+    for line in stdin.lock().lines() {
+        let line = line.unwrap();
+        let f: Vec<&str> = line.split_whitespace().collect();
+        if f.is_empty() { continue; }
+        let a: Vec<f64> = f[1..].iter().map(|s| bits(s)).collect();
+        out.push_str(&format!("{:#018x}\n", eval(f[0], &a)));
+    }
+    print!("{}", out);
+}
+
+/// Native replay of an engine-F counterexample: the same property, evaluated on the real functions.
+fn check_prop(args: &[String]) {
+    let name = args[0].as_str();
+    let a: Vec<f64> = args[1..].iter().map(|s| bits(s)).collect();
+    let mut failed: Option<&str> = None;
+    let mut chk = |c: bool, msg: &'static str| { if !c && failed.is_none() { failed = Some(msg); } };
+    match name {
+        "c07_fuzzy_round" => {
+            let x = a[0];
+            let r = v::fuzzy_round(x);
+            let (fl, ce) = (x.floor(), x.ceil());
+            let frac = x - fl;
+            chk(r == fl || r == ce, "C07a: fuzzy_round result is not floor(x) or ceil(x)");
+            if frac < 0.5 - 1.0000001e-11 { chk(r == fl, "C07a: fuzzy_round rounds up a number further than 1e-11 below X.5"); }
+            if frac >= 0.5 - 4e-12 { chk(r == ce, "C07a: fuzzy_round rounds down a number at or within 4e-12 of X.5"); }
+            if frac == 0.0 { chk(r == x, "C07a: fuzzy_round changes an integer"); }
+        }
+        "c07_modulo" => {
+            let (n1, n2) = (a[0], a[1]);
+            let m = v::modulo(n1, n2);
+            if n2 == 0.0 {
+                chk(m.is_nan(), "C07b: x % 0 is not NaN");
+            } else {
+                chk(!m.is_nan(), "C07b: modulo of finite numbers is NaN");
+                chk(m == 0.0 || (m > 0.0) == (n2 > 0.0), "C07b: modulo result does not take the sign of the divisor");
+                chk(m.abs() <= n2.abs(), "C07b: modulo result larger than the divisor");
+                let f = n1 % n2;
+                let want = if f == 0.0 { 0.0 } else if (f > 0.0) == (n2 > 0.0) { f } else { f + n2 };
+                chk((m - want).abs() <= n2.abs() * 4.5e-16, "C07b: modulo differs from the remainder shifted into the divisor's sign");
+            }
+        }
+        "c15_hue_to_rgb" => {
+            let (m1, m2, h) = (a[0], a[1], a[2]);
+            let r = v::hue_to_rgb(m1, m2, h);
+            chk(r >= m1 - 1e-12 && r <= m2 + 1e-12, "C15b: hue_to_rgb leaves [m1, m2]");
+            let c = v::fuzzy_round(r * 255.0);
+            chk(c >= 0.0 && c <= 255.0, "C15b: a channel computed from HSL leaves [0, 255]");
+        }
+        _ => { eprintln!("unknown property {}", name); std::process::exit(2) }
+    }
+    match failed {
+        Some(m) => { println!("VIOLATED {}", m); std::process::exit(1) }
+        None => println!("HOLDS"),
+    }
+}
+
 fn main() {
     let args: Vec<String> = std::env::args().collect();
     match args.get(1).map(|s| s.as_str()) {
         Some("dump-units") => dump_units(),
         Some("check-epsilon") => check_epsilon(),
+        Some("eval-kernels") => eval_kernels(),
+        Some("check-prop") => check_prop(&args[2..]),
         _ => {
             eprintln!("usage: vnative dump-units");
             std::process::exit(2);
